@@ -38,3 +38,53 @@ func VerifC07_FloatBatchRoundTrip() {
 	}
 	vrt.Reach("end")
 }
+
+// VerifC07_FloatPair: two values per block where the second has the first one's bits or the first one's
+// bits with the sign flipped (+0/-0, x/-x): the XOR of neighbours is then 0 or the sign bit alone, so
+// the bit layout stays concrete while the first value is arbitrary. Scalar encoder and batch encoder emit
+// the same bytes, and both decoders return both values bit-exactly.
+func VerifC07_FloatPair() {
+	f0 := vrt.Float64("f0")
+	vrt.Assume(!math.IsNaN(f0))
+	b1 := math.Float64bits(f0)
+	if vrt.Choose("second_sign_flipped", 0, 1) == 1 {
+		b1 ^= 1 << 63
+	}
+	orig := []float64{f0, math.Float64frombits(b1)}
+	e := NewFloatEncoder()
+	for _, v := range orig {
+		e.Write(v)
+	}
+	e.Flush()
+	sb, err := e.Bytes()
+	vrt.Assert(err == nil, "float scalar: encode accepted")
+	bb, err2 := FloatArrayEncodeAll(append([]float64(nil), orig...), nil)
+	vrt.Assert(err2 == nil, "float batch: encode accepted")
+	if err != nil || err2 != nil {
+		return
+	}
+	vrt.Assert(len(sb) == len(bb), "float: scalar and batch encoders emit the same number of bytes")
+	if len(sb) == len(bb) {
+		for i := range sb {
+			vrt.Assert(sb[i] == bb[i], "float: scalar and batch encoders emit the same bytes")
+		}
+	}
+	for _, enc := range [][]byte{sb, bb} {
+		got, err := FloatArrayDecodeAll(enc, nil)
+		vrt.Assert(err == nil && len(got) == 2, "float: batch decoder returns both values")
+		if len(got) == 2 {
+			for i := range orig {
+				vrt.Assert(math.Float64bits(got[i]) == math.Float64bits(orig[i]), "float: batch decoder bit-exact")
+			}
+		}
+		var d FloatDecoder
+		vrt.Assert(d.SetBytes(enc) == nil, "float: scalar decoder accepts the block")
+		for i := range orig {
+			vrt.Assert(d.Next(), "float: scalar decoder has both values")
+			vrt.Assert(math.Float64bits(d.Values()) == math.Float64bits(orig[i]), "float: scalar decoder bit-exact")
+		}
+		vrt.Assert(!d.Next(), "float: scalar decoder stops after the last value")
+		vrt.Assert(d.Error() == nil, "float: scalar decoder reports no error")
+	}
+	vrt.Reach("end")
+}
